@@ -125,3 +125,113 @@ Theorem C15_accept_exec_unaffected : forall n d reports ci,
   exec_accept n d reports (Some ci) = exec_should_accept n d (N.of_nat (length reports)) 0.
 Proof. exact exec_accept_unaffected. Qed.
 Print Assumptions C15_accept_exec_unaffected.
+
+Require Import Verif.Check.C15_check Verif.Proofs.JudgeSoundC15P.
+(* ---- the executable properties of Check/C15_check.v are the property (judge soundness) ---- *)
+(* In the plugin-level parts the curse reader is scripted by a remote (read fails, global, destination, cursed chains);
+   [answer r asked] is the CurseInfo it hands out and [curse_of known r] = match known with Some all => answer r all
+   | None => None end is the answer of the call under judgement. *)
+
+(* subj: the model's CurseInfo and filtered list pass the check *)
+Theorem C15_judge_subj_model_passes : forall i, subj_ok i (subj_model i) = true.
+Proof. exact subj_model_passes. Qed.
+Print Assumptions C15_judge_subj_model_passes.
+
+(* subj: any (CurseInfo, filtered list) that passes decodes the subjects as C15_global_cursed_iff / C15_dest_cursed_iff /
+   C15_source_cursed_iff say and filters exactly the cursed chains out (everything under a global curse) *)
+Theorem C15_judge_subj_sound : forall sb d srcs inp ci nc,
+  subj_ok (sb, d, srcs, inp) (ci, nc) = true ->
+  (ci_global ci = true <-> In global_subject sb) /\
+  (ci_dest ci = true <-> In global_subject sb \/ In (subject_of_chain d) sb) /\
+  (forall c, src_cursed ci c = true <-> In c srcs /\ In (subject_of_chain c) sb) /\
+  (forall c, In c nc <-> ci_global ci = false /\ In c inp /\ src_cursed ci c = false).
+Proof. exact subj_sound. Qed.
+Print Assumptions C15_judge_subj_sound.
+
+(* obs_commit *)
+Theorem C15_judge_obsc_model_passes : forall i, obsc_ok i (obsc_model i) = true.
+Proof. exact obsc_model_passes. Qed.
+Print Assumptions C15_judge_obsc_model_passes.
+
+(* obs_commit: off-ramp numbers o that pass satisfy C15_no_observe_commit, C15_source_left_out_commit (also in the
+   full-strength form: no chain cursed on the remote), C15_observed_sources_commit and C15_observes_exactly_commit *)
+Theorem C15_judge_obsc_sound : forall sup known fails g d cursed mode o,
+  obsc_ok (sup, known, (fails, g, d, cursed), mode) o = true ->
+  let curse := match known with Some all => answer (fails, g, d, cursed) all | None => None end in
+  (sup <> 1%N \/ known = None \/ blocked curse -> o = []) /\
+  (forall c, In c cursed -> ~ In c (map fst o)) /\
+  (forall ci c, curse = Some ci -> src_cursed ci c = true -> ~ In c (map fst o)) /\
+  (forall all ci c, known = Some all -> curse = Some ci -> In c (map fst o) ->
+     In c all /\ src_cursed ci c = false /\ ci_global ci = false /\ ci_dest ci = false) /\
+  (forall all ci sn, sup = 1%N -> known = Some all -> curse = Some ci -> ci_global ci = false -> ci_dest ci = false ->
+     nextseq_of mode (non_cursed_sources ci all) = Some sn -> length sn = length (non_cursed_sources ci all) ->
+     map fst o = non_cursed_sources ci all).
+Proof. exact obsc_sound. Qed.
+Print Assumptions C15_judge_obsc_sound.
+
+(* obs_exec *)
+Theorem C15_judge_obse_model_passes : forall i, obse_ok i (obse_model i) = true.
+Proof. exact obse_model_passes. Qed.
+Print Assumptions C15_judge_obse_model_passes.
+
+(* obs_exec: observed commit reports l (Some [] = observation without commit reports) that pass satisfy
+   C15_no_observe_exec, C15_source_left_out_exec (the remote's cursed chains standing for the subject set),
+   C15_reported_source_left_out_exec, C15_observed_sources_exec and C15_other_sources_kept_exec *)
+Theorem C15_judge_obse_sound : forall sup known fails g d cursed pending l,
+  obse_ok (sup, known, (fails, g, d, cursed), pending) (Some l) = true ->
+  let curse := match known with Some all => answer (fails, g, d, cursed) all | None => None end in
+  (known = None \/ blocked curse -> l = []) /\
+  (forall c, In c cursed -> ~ In c (map fst l)) /\
+  (forall ci c, curse = Some ci -> src_cursed ci c = true -> ~ In c (map fst l)) /\
+  (forall all ci c, known = Some all -> curse = Some ci -> In c (map fst l) -> In c all /\ src_cursed ci c = false) /\
+  (forall all ci p kv, sup = 1%N -> known = Some all -> curse = Some ci -> ci_global ci = false -> ci_dest ci = false ->
+     pending = Some p -> In kv p -> In (fst kv) all -> src_cursed ci (fst kv) = false -> In kv l).
+Proof. exact obse_sound. Qed.
+Print Assumptions C15_judge_obse_sound.
+
+(* accept (both plugins) *)
+Theorem C15_judge_acc_model_passes : forall i, acc_ok i (acc_model i) = true.
+Proof. exact acc_model_passes. Qed.
+Print Assumptions C15_judge_acc_model_passes.
+
+(* accept: a verdict o (1 = accepted) that passes obeys C15_accept_commit / C15_accept_exec *)
+Theorem C15_judge_acc_sound : forall plugin srcs fails g d cursed extra o,
+  acc_ok (plugin, srcs, (fails, g, d, cursed), extra) o = true ->
+  srcs <> [] -> any_cursed (answer (fails, g, d, cursed) srcs) srcs -> o <> 1%N.
+Proof. exact acc_sound. Qed.
+Print Assumptions C15_judge_acc_sound.
+
+(* cyc_commit *)
+Theorem C15_judge_cycc_model_passes : forall i, cycc_ok i (cycc_model i) = true.
+Proof. exact cycc_model_passes. Qed.
+Print Assumptions C15_judge_cycc_model_passes.
+
+(* cyc_commit: in every state nothing is observed under a blocking curse and no chain cursed on the remote appears;
+   BuildingReport reads no off-ramp numbers; the other states satisfy the five clauses of C15_judge_obsc_sound
+   (obsc_spec); roots only for the agreed ranges *)
+Theorem C15_judge_cycc_sound : forall st sup known fails g d cursed mode sel o,
+  cycc_ok (st, sup, known, (fails, g, d, cursed), mode, sel) o = true ->
+  (st = 2%N -> fst o = []) /\
+  (st <> 2%N -> obsc_spec sup known (fails, g, d, cursed) mode (fst o)) /\
+  (blocked (match known with Some all => answer (fails, g, d, cursed) all | None => None end) -> fst o = []) /\
+  (forall c, In c cursed -> ~ In c (map fst (fst o))) /\
+  (forall c, In c (snd o) -> In c sel).
+Proof. exact cycc_sound. Qed.
+Print Assumptions C15_judge_cycc_sound.
+
+(* cyc_exec *)
+Theorem C15_judge_cyce_model_passes : forall i, cyce_ok i (cyce_model i) = true.
+Proof. exact cyce_model_passes. Qed.
+Print Assumptions C15_judge_cyce_model_passes.
+
+(* cyc_exec: GetCommitReports satisfies the five clauses of C15_judge_obse_sound (obse_spec) and carries no messages
+   or nonces; GetMessages / Filter only refer to commit reports the previous outcome agreed on *)
+Theorem C15_judge_cyce_sound : forall ph sup known fails g d cursed pend cr ms ns,
+  cyce_ok (ph, sup, known, (fails, g, d, cursed), pend) (Some (cr, ms, ns)) = true ->
+  (ph = 1%N -> ms = [] /\ ns = [] /\ obse_spec sup known (fails, g, d, cursed) pend cr) /\
+  (ph <> 1%N -> forall p, p = match pend with Some p => p | None => [] end ->
+     (forall kv, In kv cr -> In kv p) /\
+     (forall kv, In kv ms -> In (fst kv) (map fst p)) /\
+     (forall c, In c ns -> In c (map fst p))).
+Proof. exact cyce_sound. Qed.
+Print Assumptions C15_judge_cyce_sound.
